@@ -75,7 +75,7 @@ static sqfs_s32 try_compress(lzma_compressor_t *lzma, sqfs_u32 preset,
 	if (ret != LZMA_STREAM_END)
 		return ret == LZMA_OK ? 0 : SQFS_ERROR_COMPRESSOR;
 
-	if (strm.total_out > size)
+	if (strm.total_out >= size)
 		return 0;
 
 	out[LZMA_SIZE_OFFSET    ] = size & 0xFF;
